@@ -5,6 +5,7 @@
 From Coq Require Import List Bool Ascii.
 Import ListNotations.
 From Goag Require Import Base.Str Model.Gate Model.Naming Proofs.GateProofs Proofs.NamingProofs.
+From Goag Require Import Model.GoLit Gen.HoleSites Model.Holes Proofs.HolesProofs.
 
 (* Output gate.  [fmt] stands for imports.Process, [parses] for go/parser,
    [decl_ok] for the clash check on declared names.  If generation reports
@@ -41,3 +42,42 @@ Theorem C01_field_name_nonempty : forall n,
   existsb is_letter n = true -> public_field_name n <> [].
 Proof. exact public_field_name_nonempty. Qed.
 Print Assumptions C01_field_name_nonempty.
+
+(* Layer 2: template holes are lexically inert.
+   REGENERATED OBLIGATION (Gen/HoleSites.v is rewritten from /repo's
+   generator/*.gotmpl on every run): every template action that writes into
+   the generated source is one of the reviewed kinds — free text of the
+   document (descriptions, summaries, comments) only after `//` and only
+   through [comment]; values written inside "…", `…` or after `//` as they are
+   come from the reviewed list of name-like fields; nothing inside a rune
+   literal or a block comment; no {{define}} whose branches leave the Go lexer
+   in different states. *)
+Theorem C01_holes_classified : all_holes_classified observed_holes = true.
+Proof. exact (eq_refl true). Qed.
+Print Assumptions C01_holes_classified.
+
+Theorem C01_templates_balanced : unbalanced_ok observed_unbalanced = true.
+Proof. exact (eq_refl true). Qed.
+Print Assumptions C01_templates_balanced.
+
+(* free text passed through [comment] (generator/template.go commentFunc) and
+   written after `// <name-like prefix>` yields comment lines only, whatever
+   the text: no line of a description can become code *)
+Theorem C01_comment_inert : forall p s,
+  forallb line_safe p = true ->
+  forallb is_comment_line (lines ([slash; slash] ++ p ++ comment s)) = true.
+Proof. exact comment_inert. Qed.
+Print Assumptions C01_comment_inert.
+
+Theorem C01_comment_stays_in_comment : forall s p, fst (lex LLine p (comment s)) = LLine.
+Proof. exact comment_stays_in_comment. Qed.
+Print Assumptions C01_comment_stays_in_comment.
+
+(* a name-like value (letters, digits, _ . - / { } + * ; = space) leaves the
+   lexer where it was: inside the string literal, the raw literal or the line
+   comment the hole sits in *)
+Theorem C01_name_hole_inert : forall n p,
+  forallb name_char n = true ->
+  fst (lex LStr p n) = LStr /\ fst (lex LRaw p n) = LRaw /\ fst (lex LLine p n) = LLine.
+Proof. exact name_hole_inert. Qed.
+Print Assumptions C01_name_hole_inert.
